@@ -5,7 +5,7 @@ import (
 	"strings"
 )
 
-var matchGroups = regexp.MustCompile(`(?:([^\s"]+)|"([^"]*)"?)+`)
+var matchGroups = regexp.MustCompile(`(?:([^\s"]+)|"([^"]*)"?)`)
 
 func GetDefaultSearchTokens(query string) []string {
 	if query == "" {
